@@ -497,6 +497,9 @@ class LibMixin:
 
     def cm_setdefault(self, c, args, kw, st, frame, node):
         k, default = args
+        vt0 = self.d_valtype(c)
+        if isinstance(default, Cont) and getattr(default, 'empty_literal', False) and vt0.is_container:
+            self.term(default, st, vt0)
         has = self.d_has(c, k, st)
         s1 = st.fork()
         s1.assume(has)
@@ -530,6 +533,8 @@ class LibMixin:
                 yield st, item
                 return
             default = args[1]
+            if isinstance(default, Cont) and getattr(default, 'empty_literal', False) and vt.is_container:
+                self.term(default, st, vt)     # an untyped [] / {} default takes the dict's value type
             s1 = st.fork()
             s1.assume(has)
             item = self.snapshot_item(c, k, s1)
